@@ -320,8 +320,19 @@ def r_newlines_preserved(r, prog):
 
 
 def r_return_shapes(r, prog):
-    f = prog.fn('slicec::validators::operations::validate_returns_tags')
-    cs = sorted({c.resolved for c in f.calls() if (c.resolved or '').startswith('slicec::validators::operations::validate_returns_tags_for')})
+    # the dispatcher is the function of validators::operations that looks at the operation's return members and hands the @returns tags to
+    # other functions of the module (found by that role; the names of these private functions are free to change)
+    MOD = 'slicec::validators::operations::'
+    def same_module_callees(g):
+        return sorted({c.resolved for c in g.calls() if (c.resolved or '').startswith(MOD) and '{closure' not in c.resolved and c.resolved != g.path
+                       and not g.blocks[c.bb].get('cleanup')})
+    cands = [g for g in prog.fns.values() if g.path.startswith(MOD) and '{closure' not in g.path
+             and any(c.name() == 'return_members' for c in g.calls()) and len(same_module_callees(g)) >= 1
+             and not any(c.name() == 'parameters' for c in g.calls())]
+    if len(cands) != 1:
+        raise AnchorMissing('the function of validators::operations that dispatches @returns tags on the return members (found %d)' % len(cands))
+    f = cands[0]
+    cs = same_module_callees(f)
     # dispatch on the number of return members
     sw = [blk['t'] for blk in f.blocks if blk['t']['k'] == 'switch' and blk['t']['ty'] == 'usize']
     vals = {int(v) for t in sw for v, _ in t['ts']}
